@@ -178,6 +178,15 @@ CLAIMS = {
              "tasks, that task contexts are the factory-start snapshot with the factory context as parent, that cancel() ends only its task, "
              "that wait_finished returns iff the task ended, that teardown waits without cancelling, handler called once, swallowed iff truthy.",
         design_ref="DESIGN.md §5 C09, §4.2, Appendix A.5", note="Trusted as C08. Quick executes a seeded sample of the TLC-enumerated pairs. Cancelling a task before it calls task_status.started() makes start_task raise in the caller (anyio); that is tolerated."),
+    "C15": dict(
+        technique="TLA+ spec Runner.tla (outcome table per ending on a fixed virtual timeline) with the monitor P_C15: TLC enumerates every "
+                  "program of the family and checks the table against the statement; every program is executed through the real "
+                  "run_application in-process under virtual time on asyncio and trio, traces validated by TLC (Trace_C15)",
+        text="All 150 programs: 1-3 components x CLI/plain root x one ending (10 classes of run() result incl. falsy non-ints, run() raising, "
+             "failure of each component in each start-up phase, stalling component with timeout, SIGINT/SIGTERM at four moments during and one "
+             "after start-up, service-task crash at three moments). The monitor checks that every teardown callback registered on the root "
+             "context ran exactly once, in reverse order, before run_application returned or raised, and that the outcome is the documented one.",
+        design_ref="DESIGN.md §5 C15, §4.6", note="Trusted: TLC, virtual time through backend_options (loop_factory / MockClock), signal.raise_signal from a service task. A signal or crash during a CLI component's run(), and the outcome of a crash during start-up, are not specified."),
 }
 
 PENDING_REASON = "check not built yet in this build session; planned (DESIGN.md §5)"
